@@ -12,14 +12,17 @@ ID = "C10"
 META = {
     "level": "exploration",
     "rule": "a case = one random interleaving of supply/withdraw/borrow/repay (cash or collateral, partial/all) and "
-    "bar changes on a generated index path; every position read after an operation or bar change is one evaluation. "
+    "bar changes on a generated index path, with a deep or (one token in five) a shallow wallet; every position read after an operation or bar change is one evaluation. "
     "Non-trivial = a read of a position after >=1 index change and >=2 operations on that token; distinct by "
     "(kind, ops-on-token bucket, index-changes bucket, last op, index kind, decimals).",
     "assumptions": [
         "amount tolerance 5e-19 absolute per read against the exact ledger (so two sequences agree within 1e-18)",
         "a wallet balance that lands within 1e-5 relative of zero may be snapped to zero (Asset.sub's documented dust rule)",
         "wallet deltas are exact up to the Decimal context precision (1e-33 relative to the balance)",
-        "a sequence is abandoned at the first rejected operation (rejections are C04/C11's subject)",
+        "a rejected request (more than the wallet / the position holds, limits of C11) moves nothing: afterwards every position "
+        "must still equal the ledger and the wallet must be where the accepted parts left it; the sequence then goes on",
+        "a subtraction that leaves a *scaled* balance under 1e-18 clears the position (helper.sub_base_amount, the quantum the "
+        "statement's 1e-18 comes from); the ledger does exactly the same for balances the operation lowered",
         "Market.update() (liquidation) is not called here; C12 covers it",
     ],
 }
@@ -58,6 +61,9 @@ def run(spec, mon):
             mon.violation("aave", "sequence", "unexpected-exception", Dr.reject_site(e), traceback.format_exc()[-1500:])
 
 
+CLAMP = Fraction(1, 10**18) - Fraction(1, 10**27)  # scaled balances below this are cleared by a subtraction
+
+
 def wallet_move_ok(before: Decimal, after: Decimal, delta: Fraction):
     """after == before + delta exactly, or the dust snap of Asset.sub applied."""
     # the wallet is a Decimal at the context's 35 significant digits: allow that rounding, nothing more
@@ -74,7 +80,8 @@ def one_case(mon, rng, c):
     toks = rng.sample([("WETH", 18), ("USDC", 6), ("WBTC", 8), ("DAI", 18), ("LINK", 18)], rng.randint(2, 4))
     w = W.AaveWorld(rng, n=n, tokens=toks, index_kind=index_kind, all_flags=True, price_kind="walk")
     m = w.market()
-    big = {t: Decimal(10) ** 12 for t in w.tokens}
+    # mostly a deep wallet; sometimes a shallow one, so that supplies (and repayments) larger than the wallet are requested
+    big = {t: Decimal(10) ** rng.choice([12, 12, 12, 4, 1]) for t in w.tokens}
     bar = 0
     fz = Dr.Frozen([m], w.prices.iloc[0], None, big, w.index[0])
     from demeter._typing import USD
@@ -143,6 +150,7 @@ def one_case(mon, rng, c):
             choices += ["repay", "repay_all", "repay_coll", "repay_half_twice"]
         op = rng.choice(choices)
         wb = {k.name: v.balance for k, v in fz.broker.assets.items()}
+        sup_before, bor_before = dict(led.sup), dict(led.bor)
         n_act = len(fz.actions)
         res = None
         paid = Fraction(0)
@@ -247,13 +255,27 @@ def one_case(mon, rng, c):
             continue
         trace.append((bar, label, name, str(amt)))
         if not res.ok:
-            mon.cls(f"rejected-abandon/{op}/{res.site}")
-            return
+            # a rejected request supplies / borrows / repays / withdraws nothing: positions still follow the ledger and the
+            # wallet has moved only by the parts accepted before it (the sequence then goes on)
+            mon.cls(f"rejected/{op}/{res.site}")
+            mon.hit("rejected-then-continued")
+            for k, v in fz.broker.assets.items():
+                d = exp_wallet.get(k.name, Fraction(0))
+                mon.ev()
+                if not wallet_move_ok(wb[k.name], v.balance, d):
+                    mon.violation(
+                        "aave", label, "wallet-move-on-rejected-request", k.name,
+                        f"rejected {label} {name} ({res.exc!r}): wallet {k.name} moved by {v.balance - wb[k.name]} expected {float(d)!r} "
+                        f"(case {c}, trace {trace[-3:]})",
+                    )
+            read_all(f"rejected:{op}")
+            continue
         mon.hit(label)
-        # tiny residues are clamped to zero by the code (1e-18); mirror that in the ledger
-        for book, kind in ((led.sup, "s"), (led.bor, "b")):
+        # a subtraction that leaves a scaled balance under 1e-18 clears the position (helper.sub_base_amount, the quantum
+        # behind the statement's 1e-18); mirror exactly that in the ledger: only for balances this operation lowered
+        for book, before in ((led.sup, sup_before), (led.bor, bor_before)):
             for k in list(book):
-                if book[k] * idx(k, kind) < 2 * TOL and book[k] < Fraction(1, 10**18):
+                if k in before and book[k] < before[k] and book[k] < CLAMP:
                     book.pop(k)
         led.ops[name] = led.ops.get(name, 0) + 1
         led.last[name] = label
